@@ -6,7 +6,7 @@ from hypothesis import strategies as st
 from .. import meta, run
 from ..engine import Prop, Verdict
 
-FORMS = ["stmt", "assign", "arg", "if-cond", "elsif-cond", "unless-cond", "while-cond", "block", "ternary", "chain", "nested-arg"]
+FORMS = ["stmt", "assign", "arg", "if-cond", "elsif-cond", "unless-cond", "while-cond", "block", "ternary", "chain", "nested-arg", "eq-rhs-cond", "same-row-twice"]
 
 
 @st.composite
@@ -35,7 +35,8 @@ def call_graph_program(draw):
             sites.append([draw(st.sampled_from(FORMS)), k, callee])
         bodies[c] = sites
     implicit = draw(st.integers(0, 3)) == 0 and len(cms) >= 2
-    return {"tops": tops, "cms": cms, "bodies": bodies, "implicit": implicit}
+    return {"tops": tops, "cms": cms, "bodies": bodies, "implicit": implicit, "sub": bool(cms) and draw(st.integers(0, 2)) == 0,
+            "selfcall": draw(st.booleans())}
 
 
 def render(case):
@@ -88,6 +89,15 @@ def render(case):
         elif form == "ternary":
             lines.append(ind + "tv = %s == 1 ? 1 : 2" % c)
             rec(len(lines))
+        elif form == "eq-rhs-cond":
+            # the call is the right hand side of a comparison the narrowing lookahead evaluates
+            lines.append(ind + "ev = 1")
+            lines.append(ind + "if ev == %s" % c)
+            rec(len(lines))
+            lines.extend([ind + "  bv = 2", ind + "end"])
+        elif form == "same-row-twice":
+            lines.append(ind + "sv = [%s, %s]" % (c, call(kind, callee, "2")))
+            rec(len(lines), 2)
         elif form == "chain":
             lines.append(ind + "%s.to_s" % c)
             rec(len(lines))
@@ -99,15 +109,18 @@ def render(case):
         for i, m in enumerate(cms):
             lines += ["  def %s(a)" % m]
             if case.get("implicit") and i == 1:
-                lines.append("    iv = %s(a)" % cms[0])
+                lines.append("    iv = %s%s(a)" % ("self." if case.get("selfcall") else "", cms[0]))
                 exp.setdefault(cms[0], []).append((len(lines), m, cls))
             lines += ["    a", "  end"]
         lines.append("end")
-        lines.append("ko = %s.new" % cls)
+        if case.get("sub"):
+            # the receiver is an instance of a subclass: the methods are still Kk's
+            lines += ["class Ks < %s" % cls, "  def ks_own", "    1", "  end", "end"]
+        lines.append("ko = %s.new" % ("Ks" if case.get("sub") else cls))
     for t in tops:
         lines.append("def %s(q)" % t)
         if cms and case["bodies"].get(t):
-            lines.append("  ko = %s.new" % cls)
+            lines.append("  ko = %s.new" % ("Ks" if case.get("sub") else cls))
         for form, kind, callee in case["bodies"].get(t, []):
             emit_site("  ", form, kind, callee, t, "none")
         lines += ["  q", "end"]
